@@ -44,8 +44,8 @@ def run(tier, rep):
     for i in range(n):
         k = rnd.randint(2, 9)
         # every third stream repeats a few payloads verbatim (base stations do: 1005/1006/1033/1230)
-        sub = rnd.sample(pool, 3) if i % 3 == 0 else pool
-        if i % 3 == 0:
+        sub = rnd.sample(pool, 3) if i % 4 == 0 else pool
+        if i % 4 == 0:
             k = rnd.randint(5, 12)
         frames = [frame_of(rnd.choice(sub)) for _ in range(k)]
         dm = [rnd.random() < 0.4 for _ in frames]
@@ -53,9 +53,14 @@ def run(tier, rep):
             dm[rnd.randrange(k)] = True
         if all(dm):
             dm[rnd.randrange(k)] = False
-        if i % 3 == 0:
+        if i % 4 == 0:
             dm[0] = False     # a good copy first, damaged copies of the same payload later
         where = [rnd.choice([None, "crc", "crc", "payload"]) for _ in frames]
+        if i % 4 == 0 and k >= 5:
+            # two (differently) payload-damaged copies of ONE frame: identical CRC bytes, both must be reported
+            frames[2] = frames[4] = frames[0]
+            dm[2] = dm[4] = True
+            where[2] = where[4] = "payload"
         sent = [gen_streams.damage(rnd, f, where=w) if d else f for f, d, w in zip(frames, dm, where)]
         data = b"".join(sent)
         quit = i % 3
